@@ -23,7 +23,8 @@ _apply_rule = ("documents are generated type-directed (sizes <= ~40 nodes, names
 
 PLAN = {
     "C01": dict(
-        streams=[("corpus", 0, 0), ("apply", 12000, 150000), ("ensure", 2000, 20000), ("allow", 2000, 20000), ("bytes", 1500, 20000)],
+        streams=[("corpus", 0, 0), ("apply", 12000, 150000), ("ensure", 2000, 20000), ("allow", 2000, 20000), ("bytes", 1500, 20000),
+                 ("small", 0, 0)],
         theorems=[],
         facts=[F + "opDispatch_eq", F + "defaults_eq", F + "newOptions_eq", F + "errorSites_eq"],
         rule=_apply_rule,
@@ -54,7 +55,7 @@ PLAN = {
              "each call under recover() and a 180 s watchdog; non-trivial = the call returned (C04 ok); distinct = distinct request",
     ),
     "C05": dict(
-        streams=[("corpus", 0, 0), ("apply", 12000, 150000), ("merge", 6000, 60000)],
+        streams=[("corpus", 0, 0), ("apply", 12000, 150000), ("merge", 6000, 60000), ("small", 0, 0)],
         theorems=[],
         facts=[F + "useNumber_eq", F + "opDispatch_eq"],
         rule=_apply_rule + "; the output is read back by the order- and literal-preserving reference parser and compared with the ORDERED "
@@ -77,7 +78,7 @@ PLAN = {
              "request",
     ),
     "C08": dict(
-        streams=[("corpus", 0, 0), ("apply", 12000, 150000), ("limit", 3000, 30000)],
+        streams=[("corpus", 0, 0), ("apply", 12000, 150000), ("limit", 3000, 30000), ("small", 0, 0)],
         theorems=[],
         facts=[F + "errorSites_eq", F + "applyReturnsNil_eq", F + "opDispatch_eq"],
         rule=_apply_rule + "; for a failing patch the harness also applies the patch cut after its first failing operation; non-trivial = C08 "
